@@ -3168,13 +3168,7 @@ class RomanNumeral(Harmony):
             The number of the chord.
         """
         # Corrected step after degree2
-        key_match = re.search(r"[a-gA-G]", self.local_key)
-        key_step = key_match.group(0)
-        # the accidental follows the step letter (the "b" of B minor is the
-        # step, not a flat)
-        key_alter = re.search(r"[#b]", self.local_key[key_match.end() :])
-        key_alter = key_alter.group(0) if key_alter else ""
-        key_alter = ALT_TO_INT[key_alter]
+        key_step, key_alter = _key_step_alter(self.local_key)
         try:
             interval = (
                 Roman2Interval_Min[self.secondary_degree]
@@ -3206,9 +3200,7 @@ class RomanNumeral(Harmony):
 
     def find_bass_note(self):
         # TODO add support for diminished and augmented chords
-        step = re.search(r"[a-gA-G]", self.root).group(0)
-        alter = re.search(r"[#b]", self.root)
-        alter = ALT_TO_INT[alter.group(0)] if alter else 0
+        step, alter = _key_step_alter(self.root)
 
         if self.inversion == 1:
             if self.primary_degree.islower():
@@ -6303,6 +6295,20 @@ Roman2Interval_Min = {
 }
 
 
+def _key_step_alter(name):
+    """
+    Step letter and alteration of a key or chord-root name.
+
+    The accidental follows the step letter (the "b" of B minor is the step,
+    not a flat) and may be written as in key names ("Bb", "f#") or as
+    INT_TO_ALT writes it ("B-", "E--", "C##"), which is how
+    `process_local_key` and `RomanNumeral.find_root_note` spell their results.
+    """
+    step = re.search(r"[a-gA-G]", name)
+    accidental = re.match(r"[#b-]*", name[step.end() :]).group(0)
+    return step.group(0), ALT_TO_INT[accidental.replace("b", "-")]
+
+
 def process_local_key(loc_k, glob_k, return_step_alter=False):
     local_key_sharps = loc_k.count("#")
     local_key_flats = loc_k.count("b")
@@ -6325,14 +6331,7 @@ def process_local_key(loc_k, glob_k, return_step_alter=False):
     transposition_interval = transposition_interval.change_quality(
         local_key_sharps - local_key_flats
     )
-    key_match = re.search(r"[a-gA-G]", glob_k)
-    key_step = key_match.group(0)
-    # the accidental follows the step letter (the "b" of B minor is the step,
-    # not a flat)
-    key_alter = re.search(r"[#b]", glob_k[key_match.end() :])
-    key_alter = key_alter.group(0) if key_alter else ""
-    key_alter = key_alter.replace("b", "-")
-    key_alter = ALT_TO_INT[key_alter]
+    key_step, key_alter = _key_step_alter(glob_k)
     key_step, key_alter = transpose_note(key_step, key_alter, transposition_interval)
     if return_step_alter:
         return key_step, key_alter
